@@ -61,6 +61,10 @@ type output struct {
 	Globals    int         `json:"globals"`
 	SyncSeams  int         `json:"sync_seams"`
 	Packages   []string    `json:"packages"`
+	// SyncPkgs: packages (relative to the module) that use synchronisation
+	// primitives or atomics: writes to their package-level state may be
+	// synchronised, so I-GLOBAL does not treat them as races.
+	SyncPkgs []string `json:"sync_pkgs"`
 	Audit      []auditItem `json:"audit"`
 	Yields     []site      `json:"-"`
 	Maps       []site      `json:"maps"`
@@ -115,6 +119,7 @@ func main() {
 		}
 		out.Packages = append(out.Packages, pkg.PkgPath)
 		var globals []string
+		pkgSync := false
 		files := append([]*ast.File(nil), pkg.Syntax...)
 		sort.Slice(files, func(i, j int) bool {
 			return pkg.Fset.File(files[i].Pos()).Name() < pkg.Fset.File(files[j].Pos()).Name()
@@ -131,6 +136,7 @@ func main() {
 			}
 			var patches []patch
 			usesSimrt := false
+			syncName := "" // local name of the sync import when a use was redirected
 			// enclosing function names for site descriptions
 			var funcStack []string
 			curFunc := func() string {
@@ -221,10 +227,16 @@ func main() {
 									patches = append(patches, patch{off: tf.Offset(x.Pos()), end: tf.Offset(id.End()), text: "simrt"})
 									out.SyncSeams++
 									usesSimrt = true
+									syncName = id.Name
+									pkgSync = true
 								default:
 									out.Audit = append(out.Audit, auditItem{"sync", posOf(x.Pos()), "sync." + sel})
+									pkgSync = true
 								}
-							case "sync/atomic", "time", "math/rand", "math/rand/v2", "crypto/rand", "os", "os/exec", "os/signal", "runtime", "unsafe", "context", "net", "io/ioutil", "syscall":
+							case "sync/atomic":
+								out.Audit = append(out.Audit, auditItem{"pkg", posOf(x.Pos()), path + "." + sel})
+								pkgSync = true
+							case "time", "math/rand", "math/rand/v2", "crypto/rand", "os", "os/exec", "os/signal", "runtime", "unsafe", "context", "net", "io/ioutil", "syscall":
 								out.Audit = append(out.Audit, auditItem{"pkg", posOf(x.Pos()), path + "." + sel})
 							case "maps":
 								switch sel {
@@ -258,6 +270,10 @@ func main() {
 			}
 			// import, on the package clause line
 			patches = append(patches, patch{off: tf.Offset(f.Name.End()), text: `; import simrt "` + simrtImport + `"`})
+			if syncName != "" {
+				// every use of the sync import may have been redirected: keep it referenced
+				patches = append(patches, patch{off: tf.Size(), text: "\nvar _ " + syncName + ".Locker\n"})
+			}
 			data, err := os.ReadFile(fname)
 			if err != nil {
 				die(err)
@@ -273,6 +289,9 @@ func main() {
 			if err := os.WriteFile(fname, data, 0o644); err != nil {
 				die(err)
 			}
+		}
+		if pkgSync {
+			out.SyncPkgs = append(out.SyncPkgs, strings.TrimPrefix(pkg.PkgPath, "github.com/gogpu/naga/"))
 		}
 		if len(globals) > 0 && len(pkg.GoFiles) > 0 {
 			sort.Strings(globals)
